@@ -80,7 +80,7 @@ func genC01Case(t *rapid.T) C01Case {
 		case "seed":
 			sp := rapid.IntRange(0, 2).Draw(t, "sp")
 			done := rapid.IntRange(0, 2).Draw(t, "done") == 0
-			user := rapid.SampledFrom([]string{"", "uid-0", "uid-1", "uid-unknown", "uid-big", "samename@users.example"}).Draw(t, "user")
+			user := rapid.SampledFrom([]string{"", "uid-0", "uid-big", "uid-1", "uid-unknown", "uid-big", "samename@users.example"}).Draw(t, "user")
 			if done && user == "" {
 				user = "uid-0"
 			}
@@ -96,7 +96,7 @@ func genC01Case(t *rapid.T) C01Case {
 			}
 		case "complete":
 			op.Ref = rapid.IntRange(0, 50).Draw(t, "ref")
-			op.User = rapid.SampledFrom([]string{"uid-0", "uid-1", "uid-0", "uid-1", "uid-unknown", "uid-big", "samename@users.example"}).Draw(t, "user")
+			op.User = rapid.SampledFrom([]string{"uid-0", "uid-big", "uid-1", "uid-0", "uid-1", "uid-unknown", "uid-big", "samename@users.example"}).Draw(t, "user")
 		case "fault":
 			op.FaultOp = rapid.SampledFrom([]string{"SetUserinfoWithUserID", "SetUserinfoWithUserID", "GetResponseSigningKey", "GetEntityIDByAppID", "AuthRequestByID"}).Draw(t, "faultop")
 			op.FaultKind = rapid.SampledFrom([]string{"error", "error", "errval"}).Draw(t, "faultkind0")
